@@ -42,3 +42,60 @@ Definition hash_r (s : rstate) : N :=
 Fixpoint run_reactor_from (s : rstate) (es : list crev) : list N :=
   match es with [] => [] | e :: t => let s' := rstep s (rev_of e) in hash_r s' :: run_reactor_from s' t end.
 Definition run_reactor (es : list crev) : list N := run_reactor_from rstate0 es.
+
+(* ---- asyncio ClientSession --------------------------------------------------------------------------- *)
+From HP Require Import AioSession.
+Definition adler_str (s : string) : N := adler (list_byte_of_string s).
+Definition show_cframe (f : bytes) : string :=
+  match f with
+  | _ :: _ :: _ :: _ :: o :: body =>
+      let op := bz o in
+      if (op =? 2)%Z then match readauth body with Some (i, d) => ("A" ++ fp i ++ "/" ++ fp d)%string | None => "?"%string end
+      else if (op =? 4)%Z then match readsubscribe body with Some (i, c) => ("S" ++ fp i ++ "/" ++ fp c)%string | None => "?"%string end
+      else if (op =? 5)%Z then match readunsubscribe body with Some (i, c) => ("U" ++ fp i ++ "/" ++ fp c)%string | None => "?"%string end
+      else if (op =? 3)%Z then match readpublish body with Some (i, c, d) => ("P" ++ fp i ++ "/" ++ fp c ++ "/" ++ fp d)%string | None => "?"%string end
+      else ("F" ++ show_Z op ++ ":" ++ fp body)%string
+  | _ => "?"%string
+  end.
+Definition is_subf (f : bytes) : bool := match f with _ :: _ :: _ :: _ :: o :: _ => (bz o =? 4)%Z | _ => false end.
+(* frames oldest first; every maximal run of SUBSCRIBE frames is replaced by the sum of its members' fingerprints
+   (a resubscription burst iterates a set: its order is immaterial) *)
+Fixpoint canon_frames (l : list bytes) (run : option N) : list string :=
+  match l with
+  | [] => match run with Some n => [("{" ++ show_N n ++ "}")%string] | None => [] end
+  | f :: t =>
+      if is_subf f then
+        canon_frames t (Some ((match run with Some n => n | None => 0%N end + adler_str (show_cframe f)) mod 4294967296)%N)
+      else match run with
+           | Some n => ("{" ++ show_N n ++ "}")%string :: show_cframe f :: canon_frames t None
+           | None => show_cframe f :: canon_frames t None
+           end
+  end.
+Definition show_msg (m : msg) : string := let '(i, c, d) := m in (fp i ++ "/" ++ fp c ++ "/" ++ fp d)%string.
+Definition bit' (b : bool) : string := if b then "1"%string else "0"%string.
+Definition rendered (ident secret : bytes) (l : list cfr) : list bytes :=
+  flat_map (fun f => match render ident secret f with Some b => [b] | None => [] end) l.
+Definition show_aconn (ident secret : bytes) (c : aconn) : string :=
+  (join ","%string (canon_frames (rendered ident secret (rev (cout c))) None) ++ ":" ++ bit' (cclosing c))%string.
+Definition show_asess (ident secret : bytes) (s : asess) : string :=
+  (show_nat (attempts s) ++ "|" ++ bit' (pend s && match outcome s with None => true | _ => false end) ++ "|" ++
+   match cur s with Some k => show_nat k | None => "-"%string end ++ "|" ++
+   show_N (fold_left (fun a x => (a + adler x) mod 4294967296)%N (wanted s) 0%N) ++ "|" ++ bit' (closing s) ++ bit' (wc_done s) ++ "|" ++
+   match cst s with CNone => "n" | CDone => "d" | _ => "p" end ++ "|" ++
+   join ";"%string (map (show_aconn ident secret) (conns s)) ++ "|" ++
+   "{" ++ show_N (fold_left (fun a m => (a + adler_str (show_msg m)) mod 4294967296)%N (delivered s) 0%N) ++ "}" ++
+   join ","%string (map show_msg (queue s)) ++ "|" ++ show_nat (List.length (delivered s)) ++ "," ++ show_nat (waiting s)
+   ++ "|" ++ show_nat (raised s))%string.
+Inductive caev :=
+| KIdle | KOk | KRefuse | KAdv (n : nat) | KData (k : nat) (ch : list seg) | KLost (k : nat)
+| KSub (c : bytes) | KUnsub (c : bytes) | KPub (c : bytes) (d : list seg) | KRead | KClose.
+Definition aev_of (e : caev) : aev :=
+  match e with
+  | KIdle => AIdle | KOk => AOk | KRefuse => ARefuse | KAdv n => AAdv n | KData k ch => AData k (expand ch) | KLost k => ALost k
+  | KSub c => ASub c | KUnsub c => AUnsub c | KPub c d => APub c (expand d) | KRead => ARead | KClose => AClose
+  end.
+Fixpoint run_aio_from (ident secret : bytes) (s : asess) (es : list caev) : list N :=
+  match es with [] => [] | e :: t => let s' := astep ident secret s (aev_of e) in adler_str (show_asess ident secret s') :: run_aio_from ident secret s' t end.
+Definition run_aio (ident secret : bytes) (es : list caev) : list N := run_aio_from ident secret asess0 es.
+Definition run_aio_full (ident secret : bytes) (es : list caev) : list string :=
+  (fix go s es := match es with [] => [] | e :: t => let s' := astep ident secret s (aev_of e) in show_asess ident secret s' :: go s' t end) asess0 es.
